@@ -549,6 +549,7 @@ def gen_ops(rng, paths, slots, tier, light=False, slow=False):
         ops.append(("getdrv %d" % i, None))
     for i in list(range(n)) + [n, 2 ** 32 - 1]:
         ops.append(("open %d" % i, None))
+        ops.append(("openh %d" % i, None))
     kinds_bad = [7, 8, 255, 256, 65536, 2 ** 31 - 1, 2 ** 31, 2 ** 32 - 1, rng.randrange(7, 2 ** 32)]
     for k in list(range(0, 7)) + kinds_bad:
         ops.append(("first %d" % k, None))
@@ -630,6 +631,8 @@ def run_config(paths, slots, ops, tag, watchdog_ms=2000, timeout=900):
             continue
         if op.startswith("selh "):
             op = "sel " + op[5:]
+        if op.startswith("openh "):     # the same open, after every other enumerated device was opened and closed in the same process
+            op = "open " + op[6:]
         if op.startswith("sel "):
             head, _, tail = r.partition(" | ")
             if tail.startswith("inconclusive"):
